@@ -306,7 +306,8 @@ impl Property for C01 {
         let mut use_inc = src.chance(64);
         if float && src.chance(40) {
             // 2^-1074 (bit 0 = the smallest subnormal), 2^-1060, 2^-80 (all amounts below f64::EPSILON), 2^-30, 2^900
-            let e = [-1074i32, -1060, -80, -30, 900][src.below(5)];
+            // ... and 2^60 / 2^61: whole numbers whose sums pass 2^63 and 2^64 after a few increments
+            let e = [-1074i32, -1060, -80, -30, 900, 60, 61][src.below(7)];
             sys.scale = if e < -1022 { f64::from_bits(1u64 << (e + 1074)) } else { 2f64.powi(e) };
             use_inc = false;
             rep.class("amounts-scaled(tiny/huge powers of two)");
